@@ -60,11 +60,15 @@ def gen_pred(rng, depth=0):
         return [rng.choice(["&&", "||"]), gen_pred(rng, depth + 1), gen_pred(rng, depth + 1)]
     if depth < 2 and r < 0.4:
         return ["!", gen_pred(rng, depth + 1)]
-    f = rng.choice(FIELDS)
-    if f in ("build.date",) and rng.random() < 0.6:
-        return [rng.choice(["<", "<=", ">", ">="]), ["f", f], ["s", "2020-01-%02d" % rng.randrange(1, 28)]]
+    f = rng.choice(FIELDS + ["build.date", "build.date"])
+    if f in ("build.date",) and rng.random() < 0.8:
+        # half of the literals are complete time stamps from the small pool the artifacts draw
+        # from, so that the boundary case (field == literal) of <= and >= occurs
+        lit = ("2020-01-%02dT%02d:00:00" % (rng.randrange(1, 10), rng.choice([0, 12]))) if rng.random() < 0.5 \
+            else "2020-01-%02d" % rng.randrange(1, 11)
+        return [rng.choice(["<", "<=", ">", ">="]), ["f", f], ["s", lit]]
     if f == "meta.package":
-        return [rng.choice(["==", "!=", "==", "<", ">="]), ["f", f], ["s", rng.choice(PKGS)]]
+        return [rng.choice(["==", "!=", "==", "<", ">=", "<=", ">"]), ["f", f], ["s", rng.choice(PKGS)]]
     if f == "meta.recipe":
         return [rng.choice(["==", "!="]), ["f", f], ["s", rng.choice(PKGS)]]
     if f.startswith("metaEnv"):
@@ -157,7 +161,7 @@ def model_select(exprs, present):
 def gen_art(rng, idx, existing):
     pkg = rng.choice(PKGS)
     a = {"id": idx, "package": pkg, "recipe": rng.choice(PKGS) if rng.random() < 0.3 else pkg,
-         "date": "2020-01-%02dT%02d:00:00" % (rng.randrange(1, 28), rng.randrange(24)),
+         "date": "2020-01-%02dT%02d:00:00" % (rng.randrange(1, 10), rng.choice([0, 12])),
          "metaEnv": {}, "deps": [], "rev": 0}
     if rng.random() < 0.5:
         a["metaEnv"]["LICENSE"] = rng.choice(["GPL", "MIT"])
